@@ -130,6 +130,9 @@ func (m *C03) OnPassEnd(e *scen.Env, pr driver.PassResult) {
 		switch {
 		case r.Verb == "get":
 			if isPhaseKey {
+				if _, already := observedPhaseObj[r.Key.Name]; already {
+					break // only the first read of the pass is relayed
+				}
 				if r.Err == nil {
 					observedPhaseObj[r.Key.Name] = r.Post
 				} else {
